@@ -384,6 +384,19 @@ def run_case(case):
         probe.attempt(co.sdss2eq, lam, eta)
         return
     if fam == "xyz":
+        if rng.random() < .15:
+            # the six axis vectors given as integers (scalars, lists, integer arrays): valid unit vectors
+            ax = np.array([(1, 0, 0), (0, 1, 0), (-1, 0, 0), (0, -1, 0), (0, 0, 1), (0, 0, -1)])[rng.permutation(6)[: int(rng.integers(1, 7))]]
+            u_, st_ = str(rng.choice(["deg", "rad"])), bool(rng.integers(0, 2))
+            form_ = int(rng.integers(0, 3))
+            if form_ == 0:
+                for v in ax:
+                    probe.attempt(co.xyz2eq, int(v[0]), int(v[1]), int(v[2]), units=u_, stomp=st_)
+            elif form_ == 1:
+                probe.attempt(co.xyz2eq, ax[:, 0].tolist(), ax[:, 1].tolist(), ax[:, 2].tolist(), units=u_, stomp=st_)
+            else:
+                t_ = str(rng.choice(["i8", "i4"]))      # (int16 would make numpy compute in float32)
+                probe.attempt(co.xyz2eq, ax[:, 0].astype(t_), ax[:, 1].astype(t_), ax[:, 2].astype(t_), units=u_, stomp=st_)
         mode = int(rng.integers(0, 3))
         ra, dec = _uniform(rng, n) if mode == 0 else ring(rng, n)
         if mode == 2:
